@@ -1,5 +1,6 @@
 import os
 from .. import common
+from .. import replay as _replay
 
 MANIFEST = {
     "text": "Lean 4 theorems over a line-by-line model of format/formatutil (splitStmts, tokOf, isDecl/isFuncDecl, seekAfter, startWith, "
@@ -40,3 +41,8 @@ def run(ctx):
         "format.Source is deterministic (the SourceEx clause compares three separate calls)",
     ]
     common.standard(ctx, "GopModel.Props.C24", "c24", 900, 40000, RULE, driver="drv_pureb", post=post)
+
+
+def replay(ctx, obj):
+    ctx.driver_exe = "drv_pureb"
+    return _replay.generic(ctx, obj)
